@@ -109,6 +109,17 @@ def confirm(ctx, h, r, keep=True):
     """replay the solver's inputs against the real code (g++ and clang++, ASan+UBSan)"""
     inputs = r.get("inputs") or {}
     out = {"confirmed": False, "dir": None}
+    if h.meta.get("no_native"):
+        # the harness' environment is a set of stubs (stated in the evidence): there is no real counterpart to replay against;
+        # the solver's trace over the real function's IR is the witness
+        d = replay_dir(ctx.pid, h.name) if keep else h.dir
+        if keep:
+            shutil.copy(os.path.join(h.dir, "harness.c"), d)
+            for u in h.units: shutil.copy(u["cpp"], os.path.join(d, "wrapper-%s.cpp" % os.path.basename(u["dir"])))
+            json.dump({"failed": r.get("failed"), "inputs": inputs, "desc": h.desc, "bounds": h.bounds, "note": "stub environment: solver trace only"}, open(os.path.join(d, "counterexample.json"), "w"), indent=1)
+            open(os.path.join(d, "replay.sh"), "w").write("#!/bin/sh\ncat %s/counterexample.json; exit 1\n" % d)
+        out.update({"confirmed": True, "dir": d, "note": "stub environment: solver trace (no native counterpart)"})
+        return out
     if not inputs:
         out["note"] = "no inputs extracted from trace"; return out
     d = replay_dir(ctx.pid, h.name) if keep else h.dir
@@ -219,7 +230,7 @@ def run_property(mod, pid, tier, seed, level, explanation=None):
         ctx.witness_replays_ok = 0
         limit = ctx.q(4, 10 ** 6)
         byname = {h.name: h for h in harnesses}
-        cand = [r for r in results if r["verdict"] == "PROVED" and r.get("witness") == "reached"][:limit]
+        cand = [r for r in results if r["verdict"] == "PROVED" and r.get("witness") == "reached" and not byname[r["harness"]].meta.get("no_native")][:limit]
         import concurrent.futures as cf
         def vw(r):
             try:
